@@ -119,6 +119,12 @@ AsBuilt(f, d, k) ==
     ELSE IF k # "h" /\ d = "main" THEN "unknown"
     ELSE IF k = "h" THEN (IF d \in Saw[f] THEN "ok" ELSE "cycle")
     ELSE IF d \in SawPlain[f] THEN "ok" ELSE "cycle"
+\* A read inside a function body is not placed in the load order (the function may run any time later): as built it is
+\* looked up in the tables of the whole project, so it is never a load-order error; only the plain globals of the entry
+\* file stay out of reach of the other files.
+AsBuiltFn(f, d, k) == IF AsBuilt(f, d, k) = "cycle" THEN "ok" ELSE AsBuilt(f, d, k)
+FnNeverCycle == \A f, d \in Files, k \in Kinds : AsBuiltFn(f, d, k) # "cycle"
+
 \* model facts: the entry file resolves everything; a file's own globals always resolve; _G globals never get lost
 EntryResolvesAll == Covered => \A d \in Proj, k \in Kinds : AsBuilt("main", d, k) = "ok"
 GNeverUnknown == \A f, d \in Proj : AsBuilt(f, d, "h") # "unknown"
@@ -135,6 +141,7 @@ Repeated == \E f \in Files : \E i, j \in 1..Len(req[f]) : i # j /\ req[f][i] = r
 Emit == IF Covered
         THEN PrintT("@@J " \o ToJson([fam |-> "project", req |-> req, shared |-> Shared, repeated |-> Repeated,
                                        incl |-> SetToSeq(Incl), order |-> LoadOrder, saw |-> [f \in Files |-> SetToSeq(Saw[f])],
-                                       asbuilt |-> [f \in Files |-> [d \in Files |-> [k \in Kinds |-> AsBuilt(f, d, k)]]]]))
+                                       asbuilt |-> [f \in Files |-> [d \in Files |-> [k \in Kinds |-> AsBuilt(f, d, k)]]],
+                                       asbuiltfn |-> [f \in Files |-> [d \in Files |-> [k \in Kinds |-> AsBuiltFn(f, d, k)]]]]))
         ELSE TRUE
 =============================================================================
